@@ -43,6 +43,7 @@ class C11(Check):
     quick_examples = 3000
     thorough_examples = 30000
     rule = (
+        "[drawn in addition since rounds 13-15: BaseException outcome as harness class or asyncio.CancelledError on both halves; handlers record the class of the error's cause; a tracer whose on_request_end raises; request texts nested beyond the decoder's limit] "
         "cases: (server) the request corpus of C01-C03 and the middleware / error-handler configurations of C12 - each case is dispatched by the "
         "sync dispatcher (plain functions), the async dispatcher (coroutines and async views) and the async dispatcher with the sync "
         "registry (plain functions); (client-script) C19's per-attempt outcome words x retry strategies x 0..3 tracers x single / batch / "
